@@ -29,7 +29,7 @@ func (h *hist) runScenario(s int) {
 }
 
 func (h *hist) scenarioCopyIn() {
-	ptrKinds := []int{kPtr, kSlice, kMap, kStr, kMixed, kChild, kArr}
+	ptrKinds := []int{kPtr, kSlice, kMap, kStr, kMixed, kChild, kArr, kStrOnly, kBig}
 	h.prebuiltSets(ptrKinds)
 	for round := 0; round < 30 && !h.broken; round++ {
 		h.opName = "copy-in burst"
